@@ -4,6 +4,7 @@ import (
 	"context"
 	"errors"
 	"fmt"
+	"reflect"
 	"strconv"
 	"strings"
 	"time"
@@ -14,18 +15,22 @@ import (
 
 // HSpec is one registered handler.
 type HSpec struct {
-	Pred  int `json:"pred"`   // 0 nil predicate, 1 always, 2 never, 3 even sequence number, 4 odd, 5 kind-specific field test
-	ErrAt int `json:"err_at"` // 0 never, k: returns an error at its k-th call
+	Pred    int `json:"pred"`               // 0 nil predicate, 1 always, 2 never, 3 even sequence number, 4 odd, 5 kind-specific field test
+	ErrAt   int `json:"err_at"`             // 0 never, k: returns an error at its k-th call
+	DelayMs int `json:"delay_ms,omitempty"` // the handler takes this long
 }
 
 // PlanC20 is one dispatch run.
 type PlanC20 struct {
-	Conf   FullConf   `json:"conf"`
-	Cli    CliSpec    `json:"cli"`
-	Role   string     `json:"role"`  // server: the table is on the server; client: on a client-side mux
-	Table  [4][]HSpec `json:"table"` // per kind, in registration order
-	Envs   []EnvSpec  `json:"envs"`  // inbound envelopes, sent in this order by one sender
-	GapMs  int        `json:"gap_ms"`
+	Conf  FullConf   `json:"conf"`
+	Cli   CliSpec    `json:"cli"`
+	Role  string     `json:"role"`  // server: the table is on the server; client: on a client-side mux
+	Table [4][]HSpec `json:"table"` // per kind, in registration order
+	Envs  []EnvSpec  `json:"envs"`  // inbound envelopes, sent in this order by one sender
+	GapMs int        `json:"gap_ms"`
+	// EndEarly: 1 = the sending party finishes the session right after its last send, 2 = it closes
+	// its connection instead; either way handlers may still be running when the session ends.
+	EndEarly int `json:"end_early,omitempty"`
 }
 
 func genC20(t *simrt.Tape, tier string) interface{} {
@@ -41,6 +46,7 @@ func genC20(t *simrt.Tape, tier string) interface{} {
 			if t.Draw(8) == 0 {
 				h.ErrAt = 1 + t.Draw(4)
 			}
+			h.DelayMs = []int{0, 0, 0, 0, 3, 150}[t.Draw(6)]
 			p.Table[k] = append(p.Table[k], h)
 		}
 	}
@@ -52,6 +58,7 @@ func genC20(t *simrt.Tape, tier string) interface{} {
 		p.Envs = append(p.Envs, GenEnvSpec(t, 60))
 	}
 	p.GapMs = []int{0, 0, 1, 20}[t.Draw(4)]
+	p.EndEarly = []int{0, 0, 0, 1, 1, 2}[t.Draw(6)]
 	return p
 }
 
@@ -114,7 +121,10 @@ func runC20(w *World, pi interface{}) {
 	calls := map[string]int{}
 	nseq := 0
 	record := func(kind, idx int, env interface{}) error {
-		_, id, canon := Describe(env)
+		id, canon := "<nil>", "<nil envelope>"
+		if rv := reflect.ValueOf(env); env != nil && !(rv.Kind() == reflect.Ptr && rv.IsNil()) {
+			_, id, canon = Describe(env)
+		}
 		key := fmt.Sprintf("%d.%d", kind, idx)
 		calls[key]++
 		nseq++
@@ -126,10 +136,18 @@ func runC20(w *World, pi interface{}) {
 			err = errors.New("handler failed on purpose")
 		}
 		inv = append(inv, iv)
+		if h.DelayMs > 0 {
+			time.Sleep(time.Duration(h.DelayMs) * time.Millisecond)
+		}
 		return err
 	}
 	mkPred := func(kind, pred int) func(env interface{}) bool {
-		return func(env interface{}) bool { return predAccepts(pred, kind, env) }
+		return func(env interface{}) bool {
+			if rv := reflect.ValueOf(env); env == nil || (rv.Kind() == reflect.Ptr && rv.IsNil()) {
+				return pred <= 1 // a predicate that does not look at the envelope
+			}
+			return predAccepts(pred, kind, env)
+		}
 	}
 	// registration through the public API, in table order
 	type registrar interface {
@@ -169,7 +187,9 @@ func runC20(w *World, pi interface{}) {
 			if h.Pred != 0 {
 				pred = func(c *lime.ResponseCommand) bool { return pr(c) }
 			}
-			m.ResponseCommandHandlerFunc(pred, func(ctx context.Context, c *lime.ResponseCommand, s lime.Sender) error { return record(KResponse, i, c) })
+			m.ResponseCommandHandlerFunc(pred, func(ctx context.Context, c *lime.ResponseCommand, s lime.Sender) error {
+				return record(KResponse, i, c)
+			})
 		}
 	}
 	var f *Full
@@ -250,6 +270,23 @@ func runC20(w *World, pi interface{}) {
 			time.Sleep(time.Duration(p.GapMs) * time.Millisecond)
 		}
 	}
+	if p.EndEarly != 0 && len(sent) == len(p.Envs) {
+		// the session ends while handlers may still be running or envelopes wait in the streams
+		ectx, ecancel := context.WithTimeout(context.Background(), 30*time.Second)
+		switch {
+		case p.EndEarly == 1 && p.Role == "server":
+			_, _ = ch.FinishSession(ectx)
+		case p.EndEarly == 1:
+			_ = sch.FinishSession(ectx)
+		case p.Role == "server":
+			_ = ch.Close()
+		default:
+			_ = sch.Close()
+		}
+		ecancel()
+		w.Count(fmt.Sprintf("ended-early-%d", p.EndEarly))
+		time.Sleep(20 * time.Second)
+	}
 	// expected dispatch
 	expect := func(e *Env) int {
 		for i, h := range p.Table[e.Kind] {
@@ -266,6 +303,9 @@ func runC20(w *World, pi interface{}) {
 		}
 	}
 	w.Eventually(2*time.Minute, func() bool {
+		if p.EndEarly != 0 {
+			return true
+		}
 		if len(inv) >= nExpected {
 			return true
 		}
@@ -308,7 +348,10 @@ func runC20(w *World, pi interface{}) {
 			erredAt = i
 		}
 	}
-	if erredAt < 0 {
+	if p.EndEarly != 0 {
+		// what was still undelivered when the session ended is not owed a dispatch; the rules
+		// above (nothing unknown, nothing twice, right handler, unaltered) are
+	} else if erredAt < 0 {
 		for _, e := range sent {
 			key := fmt.Sprintf("%d|%s", e.Kind, e.ID)
 			if want := expect(e); want >= 0 && seen[key] == 0 {
@@ -353,7 +396,7 @@ func init() {
 		Run:    runC20,
 		MaxSim: 2 * time.Hour,
 		Rule: "plans = (handler table: 0-4 handlers per kind, predicate from {nil, always, never, even/odd sequence number, kind-specific field test}, optional error at the k-th call; on the server (ServerBuilder) or on a client-side EnvelopeMux; " +
-			"1-50 inbound envelopes of all four kinds over tcp/tcp+tls/ws/wss/in-process with buffer sizes incl. 0); oracle: exactly one invocation, of the earliest-registered matching handler, envelope unaltered; none when nothing matches and later ones still dispatched; " +
+			"handler durations 0/3/150 ms; 1-50 inbound envelopes of all four kinds over tcp/tcp+tls/ws/wss/in-process with buffer sizes incl. 0; in a third of the runs the sending party finishes the session or drops the connection right after its last send, while handlers are still running); oracle: exactly one invocation, of the earliest-registered matching handler, envelope unaltered; none when nothing matches and later ones still dispatched; " +
 			"nothing after a handler error, and the server finishes the session; non-trivial = session established; distinct = distinct (plan JSON, event-log hash)",
 	})
 }
